@@ -40,6 +40,24 @@ func (g G) Parked() bool {
 	return false
 }
 
+// Busy reports whether the goroutine is executing or about to execute without
+// anybody's help: running, runnable, preempted, or in a GC / runtime-internal
+// wait. Used for goroutines that do NOT belong to the case (leftovers of the
+// previous case that are still winding down, the test framework): while one of
+// them is busy it may be holding a process-wide lock (expression-engine
+// registry, JSON codec caches, ...) that a goroutine of the case is queued on,
+// so "all goroutines of the case are parked" is not yet a fixpoint.
+func (g G) Busy() bool {
+	s := g.State
+	switch {
+	case s == "running", s == "runnable", s == "preempted", strings.HasPrefix(s, "GC "):
+		return true
+	case strings.HasPrefix(s, "semacquire"):
+		return !strings.HasPrefix(strings.TrimSpace(g.TopFunc()), "sync.")
+	}
+	return false
+}
+
 // TopFunc returns the first function name in the stack.
 func (g G) TopFunc() string {
 	lines := strings.SplitN(g.Frames, "\n", 2)
@@ -135,13 +153,22 @@ func Begin() *Tracker {
 
 // Mine returns the goroutines created since Begin, without the caller.
 func (t *Tracker) Mine() []G {
+	mine, _ := t.snapshot()
+	return mine
+}
+
+// snapshot returns the goroutines of the case and whether any OTHER goroutine
+// (not the caller, not of the case) is busy.
+func (t *Tracker) snapshot() (out []G, othersBusy bool) {
 	self := selfID()
-	var out []G
 	for _, g := range All() {
 		if g.ID == self {
 			continue
 		}
 		if _, ok := t.baseline[g.ID]; ok {
+			if g.Busy() {
+				othersBusy = true
+			}
 			continue
 		}
 		if t.Ignore != nil && t.Ignore(g) {
@@ -150,7 +177,7 @@ func (t *Tracker) Mine() []G {
 		out = append(out, g)
 	}
 	sort.Slice(out, func(i, j int) bool { return out[i].ID < out[j].ID })
-	return out
+	return out, othersBusy
 }
 
 func allParked(gs []G) bool {
@@ -198,12 +225,12 @@ func (t *Tracker) Wait(ceiling time.Duration) ([]G, error) {
 	var last []G
 	for {
 		runtime.Gosched()
-		gs := t.Mine()
+		gs, busy := t.snapshot()
 		last = gs
-		if allParked(gs) {
+		if allParked(gs) && !busy {
 			runtime.Gosched()
-			gs2 := t.Mine()
-			if allParked(gs2) && sig(gs) == sig(gs2) {
+			gs2, busy2 := t.snapshot()
+			if allParked(gs2) && !busy2 && sig(gs) == sig(gs2) {
 				return gs2, nil
 			}
 		}
